@@ -25,6 +25,7 @@ func init() {
 			"R4b in the call closure of the event-log locator local evidence is read whole (no io.LimitReader / LimitedReader / CopyN, which truncate silently). " +
 			"R7 what package extract hands to the binary attestation parsers has no byte-normalising step (Trim*, To*, Replace*, Fields) in its history. " +
 			"R8 an absent source stays absent: the functions of the extraction and verification libraries (extract, extract/eventlog, extract/extractsev, extract/extracttdx, verify) that are handed options carrying a network getter or a UEFI-variable reader (a parameter whose struct has a field of type trust.HTTPSGetter / verify.HTTPSGetter / exel.VariableReader) manufacture no such source in their call closure (no conversion of a concrete type to one of these interfaces, no call of an external function returning one): a nil Getter stays nil and is refused, it is not replaced by a default that goes to the network. " +
+			"R10 the event-log collector of extract/eventlog skips an event only on conditions computed from that event: no condition of its loop consults a map filled, or a value carried, by earlier iterations. " +
 			"R9 an absent source is reported, not called: every method call through an interface-typed field of an options parameter (Getter, UEFIVariableReader, Provider) in extract, extract/eventlog, verify, gcetcbendorsement is dominated by the non-nil edge of a nil test of that field (finding F26). " +
 			"R6 (= C18.R9, eventlog encoders) encoding an event does not modify it. " +
 			"R5b the events maker's result is published as file contents in the invocation that computed it and is never stored into a field or global (no unkeyed cache of events across firmwares). " +
@@ -94,6 +95,7 @@ func runC16(c *Ctx) {
 	}()
 	c16AbsentSourceStaysAbsent(c)
 	c16OptionalSourcesTested(c)
+	c16CollectorFiltersOnTheEventAlone(c)
 	// R6 = C18.R9: the event encoders leave the event they encode untouched, so the manifest GUID written into the
 	// second event is the one written into the first.
 	c.borrow("R6/C18.", runC18, func(rule, construct string) bool { return rule == "R9" && strings.Contains(construct, "eventlog") })
@@ -1328,4 +1330,85 @@ func c16OptionalSourcesTested(c *Ctx) {
 		}
 	}
 	c.S.Floor("R9", "calls through optional source fields of options parameters", 5, n)
+}
+
+// c16CollectorFiltersOnTheEventAlone is R10: what the event-log reader reports for an event depends on that event
+// alone. The collector of extract/eventlog (the function returning the per-locator-type lists of SP800-155 events)
+// skips an event only on conditions computed from the event itself: no condition in its loop consults state carried
+// from earlier iterations (a "seen" set, a counter), because the signer emits several locators under one manifest GUID
+// and each of them has to parse back.
+func c16CollectorFiltersOnTheEventAlone(c *Ctx) {
+	evtPkg := repoPath("eventlog")
+	n := 0
+	for _, f := range c.P.RepoFunctions() {
+		if load.RelPkg(f) != "extract/eventlog" || c.isTestFunc(f) || f.Blocks == nil {
+			continue
+		}
+		res := f.Signature.Results()
+		if res.Len() != 1 {
+			continue
+		}
+		mt, ok := res.At(0).Type().Underlying().(*types.Map)
+		if !ok || !typeIsSliceOfPtr(mt.Elem(), evtPkg, "SP800155Event3") {
+			continue
+		}
+		n++
+		// the result map(s): what is returned
+		result := map[ssa.Value]bool{}
+		for _, b := range f.Blocks {
+			if ret, ok := b.Instrs[len(b.Instrs)-1].(*ssa.Return); ok {
+				result[ret.Results[0]] = true
+			}
+		}
+		bad, at := "", f.Pos()
+		for _, L := range naturalLoops(f) {
+			for lb := range L.Body {
+				iff, ok := lb.Instrs[len(lb.Instrs)-1].(*ssa.If)
+				if !ok {
+					continue
+				}
+				lsl := flow.NewSlicer(c.P)
+				lsl.Visit(iff.Cond, func(v ssa.Value) bool {
+					switch x := v.(type) {
+					case *ssa.Lookup:
+						if _, isMap := x.X.Type().Underlying().(*types.Map); isMap && !result[x.X] {
+							if mk, isMk := x.X.(*ssa.MakeMap); isMk && !L.Body[mk.Block()] {
+								bad, at = "a map filled by earlier iterations is consulted ("+x.X.Name()+")", iff.Cond.Pos()
+							}
+						}
+					case *ssa.Phi:
+						if x.Block() == L.Header && x.Comment != "rangeindex" && x.Comment != "rangeiter" {
+							if _, isNext := nextOf(x); !isNext {
+								bad, at = "a value carried from earlier iterations is consulted ("+x.Comment+")", iff.Cond.Pos()
+							}
+						}
+					}
+					return bad == ""
+				}, nil)
+			}
+		}
+		c.S.Check(bad == "", "R10", load.FuncName(f)+":filters on the event alone", c.pos(at), "no condition of the collecting loop consults state carried from earlier iterations", "the event-log collector decides whether to report an event from what it saw before ("+bad+"): of the locators the signer emits under one manifest GUID only the first parses back, and a URI logged before the variable makes extraction go to the network although local evidence is in the log")
+	}
+	c.S.Floor("R10", "collectors of SP800-155 events in extract/eventlog", 1, n)
+}
+
+func typeIsSliceOfPtr(t types.Type, pkg, name string) bool {
+	sl, ok := t.Underlying().(*types.Slice)
+	if !ok {
+		return false
+	}
+	p, ok := sl.Elem().(*types.Pointer)
+	return ok && namedIs(p.Elem(), pkg, name)
+}
+
+// nextOf: the φ is the loop's own iteration state (the index of a range loop).
+func nextOf(p *ssa.Phi) (ssa.Value, bool) {
+	for _, e := range p.Edges {
+		if bo, ok := e.(*ssa.BinOp); ok && bo.Op == token.ADD && bo.X == ssa.Value(p) {
+			if k, isK := bo.Y.(*ssa.Const); isK && k.Value != nil {
+				return bo, true
+			}
+		}
+	}
+	return nil, false
 }
